@@ -275,6 +275,7 @@ def run(run: common.Run):
         shutil.rmtree(d, ignore_errors=True)
     run.compare_lines(cases, lines, impls)
     multi_source_cli(run, tmp, pair, src, ref, fresh_cli)
+    tilde_paths(run, tmp, pair)
 
 
 def sig_px(path):
@@ -294,6 +295,57 @@ def tree_state(root):
             st = p.stat()
             out[str(p.relative_to(root))] = (hashlib.sha1(p.read_bytes()).hexdigest(), st.st_mtime_ns, st.st_size)
     return out
+
+
+def tilde_paths(run, tmp, pair):
+    """
+    Output paths that start with `~` (str and Path), with files of those names already present in the home directory and no
+    overwrite: whatever the call does with such a path - expand it, treat it literally, or fail - it must not replace or modify the
+    existing files (the path that is checked is the path that is created).
+    """
+    from homonim import RasterFuse
+    from homonim.enums import Model
+    home, work = tmp / 'tilde_home', tmp / 'tilde_work'
+    home.mkdir()
+    work.mkdir()
+    old_home, old_cwd = os.environ.get('HOME'), os.getcwd()
+    try:
+        os.environ['HOME'] = str(home)
+        os.chdir(work)
+        for k, (as_str, with_param) in enumerate(((True, True), (False, True), (True, False), (False, False))):
+            for nm in ('corrected.tif', 'params.tif'):
+                (home / nm).write_bytes(b'precious data %d' % k)
+            before = tree_state(home)
+            corr = '~/corrected.tif' if as_str else pathlib.Path('~/corrected.tif')
+            par = ('~/params.tif' if as_str else pathlib.Path('~/params.tif')) if with_param else None
+            case = dict(i=650_000 + k, op='output path starting with ~', as_str=as_str, param=with_param, overwrite=False)
+            outcome = 'returned'
+            try:
+                with warnings.catch_warnings():
+                    warnings.simplefilter('ignore')
+                    with RasterFuse(pair.src_path, pair.ref_path) as rf:
+                        rf.process(corr, Model.gain, (1, 1), param_filename=par, overwrite=False, block_config=dict(threads=1))
+            except FileExistsError:
+                outcome = 'exists'
+            except Exception as ex:
+                outcome = f'raised {type(ex).__name__}'
+            run.evaluations += 1
+            run.hist[f'tilde paths: {outcome.split()[0]}'] += 1
+            run.nontrivial.add(('tilde', k))
+            after = tree_state(home)
+            changed = [n for n in before if after.get(n) != before[n]]
+            if changed:
+                run.fail(case, f'process({corr!r}, overwrite=False) {outcome}, and the existing files {changed} in the home directory were '
+                         f'replaced or modified', signature=dict(kind='clobbered', tilde=True))
+            shutil.rmtree(work, ignore_errors=True)
+            work.mkdir(exist_ok=True)
+            os.chdir(work)
+    finally:
+        os.chdir(old_cwd)
+        if old_home is None:
+            os.environ.pop('HOME', None)
+        else:
+            os.environ['HOME'] = old_home
 
 
 def multi_source_cli(run, tmp, pair, src, ref, fresh_cli):
